@@ -1,5 +1,6 @@
 import AutoVerif.Drv.Codec
 import AutoVerif.Spec.C14
+import Std.Data.HashSet
 /-
 Driver for C14.  The implementation's observation (real WorkerGroup in a synctest
 bubble, see harness/c14_test.go) is judged by `Spec.C14.spec` (oracle Ω).
@@ -17,6 +18,13 @@ says; its final observation is judged by the same predicate (`spec_model`).
 * as membership in the model's envelope otherwise (stop / cancel / both after k
   yields): the observation must satisfy every relation the theorems prove of ALL
   final model states (that is `spec`, including "no skipped job without Stop").
+* TRACE cases (`impl.events`, recorded through the `verif` hooks of pkg/util/worker.go by
+  harness/c14_trace_test.go): exact refinement check.  The log must be — in some reordering that keeps
+  every goroutine's order, the order of the events logged under `wg.mu`, and real time as far as the
+  log determines it — a path of `step` from `init`, every event matching the model's outcome
+  (`Spec.C14.traceOk`; theorem `trace_sound`).  The state the trace leads to must in addition show
+  the counts the harness observed from outside.  A trace that is not a path is a correspondence
+  failure: `agree = false`, `diff` names the first event that cannot be placed.
 -/
 open Lean AutoVerif.Codec
 namespace AutoVerif.C14
@@ -107,6 +115,148 @@ def modelRun (cfg : Cfg) (mode : String) (k salt : Nat) : Obs :=
   let fin := observe cfg r2.s r2.maxConc
   { fin with callers := (fin.callers.zip verdict.callers).map fun (f, v) => { f with returned := v.returned } }
 
+
+/-! ### trace validation: find an admissible reordering of the log that is a model path
+
+Depth-first search over the events that may come next (`Spec.C14.wellOrdered`: the head of a
+goroutine whose previous event was logged after everything still pending before it), tried in log
+order, with a memo of the configurations (per-goroutine positions) already known to fail and a node
+budget.  The search only PROPOSES an order; acceptance is decided by `Spec.C14.traceOk` on it. -/
+
+structure Search where
+  cfg : Cfg
+  evs : Array Ev
+  thr : Array Nat            -- goroutine number of every event
+  prev : Array (Option Nat)  -- previous event of the same goroutine
+  next : Array (Option Nat)  -- next event of the same goroutine
+  pmu : Array (Option Nat)   -- previous event logged under wg.mu (for events logged under wg.mu)
+  recvs : Array Nat          -- groups of the items runQueuing received, in its order
+
+structure SearchSt where
+  failed : Std.HashSet (Array Nat) := {}
+  nodes : Nat := 0
+  backtracks : Nat := 0
+  deepest : Nat := 0          -- most events ever placed
+  stuckAt : Nat := 0          -- first pending log index at the deepest point
+
+def mkSearch (cfg : Cfg) (evs : Array Ev) : Search × Array (Option Nat) := Id.run do
+  let mut ids : List ((Nat × Nat) × Nat) := []
+  let mut thr : Array Nat := #[]
+  let mut last : Array (Option Nat) := #[]
+  let mut heads : Array (Option Nat) := #[]
+  let mut prev : Array (Option Nat) := #[]
+  let mut next : Array (Option Nat) := Array.replicate evs.size none
+  for i in [0:evs.size] do
+    let th := evs[i]!.thread
+    let tid ← match ids.find? (fun p => p.1 == th) with
+      | some p => pure p.2
+      | none => do
+        let t := ids.length
+        ids := (th, t) :: ids
+        last := last.push none
+        heads := heads.push none
+        pure t
+    thr := thr.push tid
+    match last[tid]! with
+    | none => heads := heads.set! tid (some i)
+    | some p => next := next.set! p (some i)
+    prev := prev.push last[tid]!
+    last := last.set! tid (some i)
+  let mut pmu : Array (Option Nat) := #[]
+  let mut lastMu : Option Nat := none
+  let mut recvs : Array Nat := #[]
+  for i in [0:evs.size] do
+    let e := evs[i]!
+    if e.underMu then
+      pmu := pmu.push lastMu
+      lastMu := some i
+    else pmu := pmu.push none
+    if e.pt == "rq.recv" || e.pt == "rq.drain-recv" then recvs := recvs.push e.a
+  return ({ cfg := cfg, evs := evs, thr := thr, prev := prev, next := next, pmu := pmu, recvs := recvs }, heads)
+
+partial def firstPending (done : Array Bool) (i : Nat) : Nat :=
+  if i < done.size && done[i]! then firstPending done (i + 1) else i
+
+partial def dfs (sr : Search) (budget : Nat) (t : TState) (heads : Array (Option Nat)) (done : Array Bool)
+    (first placed : Nat) (acc : List Nat) : StateM SearchSt (Option (List Nat)) := do
+  if placed == sr.evs.size then return some acc.reverse
+  let st ← get
+  if st.nodes > budget then return none
+  let key := heads.map (fun h => h.getD sr.evs.size)
+  if st.failed.contains key then return none
+  set { st with nodes := st.nodes + 1,
+                deepest := max st.deepest placed,
+                stuckAt := if placed ≥ st.deepest then first else st.stuckAt }
+  -- eligible heads in log order (the first pending event is always one of them)
+  let cands := (heads.toList.filterMap id).filter (fun h =>
+    (match sr.prev[h]! with
+     | none => true
+     | some p => p ≤ first) &&
+    (match sr.pmu[h]! with
+     | none => true
+     | some p => done[p]!) &&
+    -- look-ahead (speeds the search up, excludes no model path): `input` has capacity 1 and one
+    -- receiver, so the n-th send is the n-th item runQueuing receives
+    (sr.evs[h]!.pt != "do.sent" ||
+      (let n := t.s.accepted.length
+       n ≥ sr.recvs.size || sr.recvs[n]! == sr.evs[h]!.a)))
+  let cands := cands.mergeSort
+  let norm (t' : TState) : TState := { t' with s := normalize sr.cfg t'.s }
+  -- the enabled ones, with their successor states
+  let en : List (Nat × TState) := cands.filterMap fun h => (tstep sr.cfg t sr.evs[h]!).map fun t' => (h, norm t')
+  -- conflict-aware order: if taking X first makes an enabled Y impossible while X stays possible
+  -- after Y (e.g. X = `queue.Add`, Y = "Len() == 0"), Y's action came first: try Y before X.
+  -- (A heuristic for the order of exploration only; every alternative is still tried.)
+  let beats (y x : Nat × TState) : Bool :=
+    (tstep sr.cfg x.2 sr.evs[y.1]!).isNone && (tstep sr.cfg y.2 sr.evs[x.1]!).isSome
+  let pref := if en.length ≤ 1 then en else
+    let unbeaten := en.filter fun x => !(en.any fun y => y.1 != x.1 && beats y x)
+    unbeaten ++ en.filter fun x => !(unbeaten.any fun u => u.1 == x.1)
+  let mut tried := 0
+  for (h, t') in pref do
+    let heads' := heads.set! sr.thr[h]! sr.next[h]!
+    let done' := done.set! h true
+    let first' := firstPending done' first
+    if tried > 0 then modify fun st => { st with backtracks := st.backtracks + 1 }
+    tried := tried + 1
+    match ← dfs sr budget t' heads' done' first' (placed + 1) (h :: acc) with
+    | some w => return some w
+    | none => pure ()
+  modify fun st => { st with failed := st.failed.insert key }
+  return none
+
+structure TraceVerdict where
+  ok : Bool
+  msg : String := ""
+  nodes : Nat := 0
+  backtracks : Nat := 0
+  final : Option State := none
+
+def showEv (e : Ev) : String := s!"{e.pt}({e.a},{e.b},{e.c})"
+
+def checkTrace (cfg : Cfg) (evs : Array Ev) : TraceVerdict :=
+  let (sr, heads) := mkSearch cfg evs
+  let t0 : TState := { s := normalize cfg (init cfg) }
+  let (res, st) := (dfs sr (200000 + 50 * evs.size) t0 heads (Array.replicate evs.size false) 0 0 []).run {}
+  match res with
+  | some order =>
+    -- the decision is taken by the checker the theorem `trace_sound` is about
+    if traceOk cfg evs order then
+      { ok := true, nodes := st.nodes, backtracks := st.backtracks,
+        final := (replay cfg evs { s := init cfg } order).map (·.s) }
+    else { ok := false, msg := "internal: proposed order rejected by Spec.traceOk", nodes := st.nodes }
+  | none =>
+    let e := evs.getD st.stuckAt default
+    let why := if st.nodes > 200000 + 50 * evs.size then "search budget exhausted; " else ""
+    { ok := false, nodes := st.nodes, backtracks := st.backtracks,
+      msg := s!"{why}no admissible reordering of the log is a model path: stuck after {st.deepest} of {evs.size} events; first event that cannot be placed: #{st.stuckAt} {showEv e} (goroutine {e.thread}); context: {(List.range 6).map fun k => showEv (evs.getD (st.stuckAt + k - 2) default)}" }
+
+def evOf (j : Json) : R Ev := do
+  let l ← asList j
+  match l with
+  | [p, a, b, c] => pure { pt := ← asStr p, a := ← asNat a, b := ← asNat b, c := ← asNat c }
+  | _ => throw "bad event"
+
 def callerObs (jobs : Nat) (j : Json) : R CallerObs := do
   let ar ← intF j "deliveredAtReturn"
   pure { jobs := jobs, returned := ← boolF j "returned", delivered := ← listF asNat j "delivered",
@@ -150,12 +300,31 @@ def handle (input impl : Json) : R Reply := do
   let si := spec cs got
   let sm := !runModel || spec cs want
   let agree := if deterministic && runModel then proj got == proj want && decide (got.maxConc ≤ workers) else si
+  -- exact trace validation (cases recorded with the instrumentation hooks)
+  let evs ← listOf evOf (fieldD impl "events" .null)
+  let traced := !evs.isEmpty
+  let tcfg : Cfg := { cfg with blocking := fun _ => false }
+  let tv : TraceVerdict := if traced then checkTrace tcfg evs.toArray else { ok := true }
+  -- the state the accepted trace leads to must show what the harness observed from outside
+  let traceObs : String :=
+    match tv.final with
+    | none => ""
+    | some s =>
+      let m := observe tcfg s 0
+      let pm := (m.callers.map fun c => (c.total, c.started.length, c.anon), m.leaked)
+      let pg := (got.callers.map fun c => (c.total, c.started.length, c.anon), got.leaked)
+      if pm == pg then "" else s!"state after the trace {pm} differs from the observation {pg}"
+  let traceGood := tv.ok && traceObs == ""
+  let agree := agree && traceGood
   let stuck := got.callers.any (fun c => !c.returned)
   let tags :=
     [s!"mode:{mode}", s!"kind:{kind}"] ++
     (if runModel then ["model-run"] else ["model-skipped-large"]) ++
     (if deterministic then ["exact-compare"] else ["envelope-compare"]) ++
     (if stuck then ["stuck"] else []) ++
+    (if traced then [if traceGood then "trace-accepted" else "trace-rejected"] else []) ++
+    (if traced && tv.backtracks > 0 then ["trace-reordered-with-backtracking"] else []) ++
+    (if traced && tv.nodes > 20 * evs.length then ["trace-search-heavy"] else []) ++
     (if got.callers.any (fun c => decide (c.anon > 0)) then ["skipped-results"] else []) ++
     (if got.callers.any (fun c => !c.panicked.isEmpty) then ["job-panicked"] else []) ++
     (if got.callers.any (fun c => !c.panicked.isEmpty) && decide (got.maxConc = workers) then ["panic-then-saturated"] else []) ++
@@ -164,10 +333,11 @@ def handle (input impl : Json) : R Reply := do
     (if got.callers.any (fun c => decide (c.total = 0) && decide (0 < c.jobs)) then ["none-accepted"] else []) ++
     (if decide (got.maxConc = workers) then ["workers-saturated"] else [])
   pure { agree := agree, specModel := sm, specImpl := si,
-         diff := if agree then "" else s!"model={summary want} impl={summary got}",
+         diff := if agree then "" else if !traceGood then s!"trace: {tv.msg}{traceObs}"
+                 else s!"model={summary want} impl={summary got}",
          fail := if si then "" else explain cs got,
          nontrivial := decide (total ≥ 2) && mode != "none",
          tags := tags,
-         key := s!"w{workers}/j{jobs}/k{k}/{mode}/{kind}/{proj got}" }
+         key := s!"w{workers}/j{jobs}/k{k}/{mode}/{kind}/{proj got}" ++ (if traced then s!"/trace:{evs.length}ev/{tv.nodes}nodes" else "") }
 
 end AutoVerif.C14
